@@ -302,6 +302,16 @@ def count_cases(path):
     return n
 
 
+def split_cases(lines):
+    """split trace lines into per-case lists (each starting with its Case line)"""
+    out = []
+    for l in lines:
+        if '"ev":"Case"' in l or not out:
+            out.append([])
+        out[-1].append(l)
+    return out
+
+
 def write_replay(ctx, case_lines, bad_line, trace_file, note=""):
     os.makedirs(REPLAYS, exist_ok=True)
     h = hashlib.sha1("\n".join(case_lines).encode()).hexdigest()[:10]
@@ -356,9 +366,12 @@ def match_known(known, case_rec, bad_event):
 
 # ---------------------------------------------------------------- verdict
 
-def handle_rejections(ctx, results, rerun, self_desc=None):
+def handle_rejections(ctx, results, rerun, self_desc=None, rerun_hist=None):
     """results: [(trace_file, [bad lines])]. rerun(case_lines) -> True if the single case is rejected again
-    (runs the driver on the case alone and validates).  Classifies into known findings / violations / flaky."""
+    (runs the driver on the case alone and validates).  Classifies into known findings / violations / flaky.
+    rerun_hist(list of case_lines) -> True if the sequence of cases, run in order in one process, is rejected
+    again: used when the case alone is accepted, because the failure may need the cases that ran before it
+    (state carried over in pooled objects); the replay then records the whole sequence."""
     known = load_known(ctx.pid)
     reproduced = set()
     flaky = 0
@@ -385,7 +398,24 @@ def handle_rejections(ctx, results, rerun, self_desc=None):
             if again:
                 p = write_replay(ctx, case_lines, ln - s + 1, trace)
                 ctx.violations.append((p, "rejected at event %s" % (json.dumps(bad_ev)[:300],)))
-            else:
+                continue
+            hist_ok = False
+            if rerun_hist is not None:
+                starts = [i for i in range(s - 1) if '"ev":"Case"' in lines[i]]
+                for depth in (3, 40, len(starts)):
+                    first = starts[-depth] if depth <= len(starts) and depth > 0 else (starts[0] if starts else s - 1)
+                    seq = split_cases(lines[first:e])
+                    if len(seq) < 2:
+                        break
+                    if rerun_hist(seq):
+                        p = write_replay(ctx, lines[first:e], ln - first, trace,
+                                         note="needs the %d preceding case(s) of the run: state is carried over between cases" % (len(seq) - 1))
+                        ctx.violations.append((p, "rejected at event %s (only after the %d preceding case(s))" % (json.dumps(bad_ev)[:300], len(seq) - 1)))
+                        hist_ok = True
+                        break
+                    if depth >= len(starts):
+                        break
+            if not hist_ok:
                 flaky += 1
     if not hasattr(ctx, "known_status"):
         ctx.known_status = {}
